@@ -4,6 +4,7 @@ package rigs
 
 import (
 	"fmt"
+	"net"
 	"sort"
 
 	"verif/sim"
@@ -34,6 +35,8 @@ type hclient struct {
 	needResp       []int // per segment: number of final responses that must have arrived before it is sent (sequential keep-alive requests)
 	abortAt        int   // >0: reset the connection instead of sending segment number abortAt (fault)
 	onAbort        func()
+	src            string // source address of the connection, if it matters (default: one per connection)
+	abortFin       bool   // the abort is a regular close (FIN): the client goes away in the middle of its request
 }
 
 // cutBytes cuts b at up to n random points.
@@ -67,6 +70,9 @@ func (h *hclient) events(add func(sim.Event)) {
 	actor := fmt.Sprintf("client:%d", h.id)
 	if h.end == nil {
 		add(sim.Event{Key: fmt.Sprintf("client.connect/c%03d", h.id), Actor: actor, Fire: func() {
+			if h.src != "" {
+				h.w.N.NextSrc = net.ParseIP(h.src)
+			}
 			e, err := h.w.N.Dial(h.ip, h.port, actor)
 			if err != nil {
 				panic("harness: dial refused")
@@ -80,8 +86,13 @@ func (h *hclient) events(add func(sim.Event)) {
 	if h.abortAt > 0 && h.next >= h.abortAt && !h.w.C.NoFaults {
 		add(sim.Event{Key: fmt.Sprintf("fault.client-abort/c%03d", h.id), Actor: actor, Fire: func() {
 			h.aborted = true
-			h.w.C.Fault("client-abort-mid-request")
-			h.end.Conn().Reset("client aborts")
+			if h.abortFin {
+				h.w.C.Fault("client-close-mid-request")
+				h.end.Close()
+			} else {
+				h.w.C.Fault("client-abort-mid-request")
+				h.end.Conn().Reset("client aborts")
+			}
 			if h.onAbort != nil {
 				h.onAbort()
 			}
